@@ -86,6 +86,9 @@ fn my_tid() -> u64 {
         .unwrap_or(0)
 }
 
+/// worker threads per iteration
+pub const NT: usize = 4;
+
 #[derive(Clone, Copy, Debug, PartialEq, Eq)]
 pub enum Family {
     OwnedPairs,
@@ -169,13 +172,13 @@ where
 {
     let w = World::<F>::new(3);
     let nodes: Vec<F::Node> = w.nodes.clone();
-    let mut outs: Vec<Option<WorkerOut>> = vec![None, None, None];
+    let mut outs: Vec<Option<WorkerOut>> = vec![None, None, None, None];
     for f in finished.iter() {
         f.store(false, AO::SeqCst);
     }
     std::thread::scope(|s| {
         let mut hs = vec![];
-        for t in 0..3usize {
+        for t in 0..NT {
             let nodes = nodes.clone();
             let progress = progress.clone();
             let tids = tids.clone();
@@ -187,12 +190,12 @@ where
                 let mutator = match fam {
                     Family::OwnedPairs => t < 2,
                     Family::OneWriter => t == 0,
-                    Family::Ring => true,
+                    Family::Ring => t < 3,
                 };
                 let pairs: Vec<(K, K)> = match fam {
-                    Family::OwnedPairs => owned_pairs(F::DIRECTED, t, (seed % 2) as usize),
+                    Family::OwnedPairs => owned_pairs(F::DIRECTED, t % 2, (seed % 2) as usize),
                     Family::OneWriter => all_pairs(F::DIRECTED),
-                    Family::Ring => ring_pairs(F::DIRECTED, t),
+                    Family::Ring => ring_pairs(F::DIRECTED, t % 3),
                 };
                 out.live = vec![vec![]; pairs.len()];
                 let mut next_id = (t as u32 + 1) * 1_000_000;
@@ -293,15 +296,15 @@ where
                     let mutator = match fam {
                         Family::OwnedPairs => t < 2,
                         Family::OneWriter => t == 0,
-                        Family::Ring => true,
+                        Family::Ring => t < 3,
                     };
                     if !mutator {
                         continue;
                     }
                     let pairs: Vec<(K, K)> = match fam {
-                        Family::OwnedPairs => owned_pairs(F::DIRECTED, t, (seed % 2) as usize),
+                        Family::OwnedPairs => owned_pairs(F::DIRECTED, t % 2, (seed % 2) as usize),
                         Family::OneWriter => all_pairs(F::DIRECTED),
-                        Family::Ring => ring_pairs(F::DIRECTED, t),
+                        Family::Ring => ring_pairs(F::DIRECTED, t % 3),
                     };
                     for (pi, p) in pairs.iter().enumerate() {
                         for id in &out.live[pi] {
@@ -342,9 +345,9 @@ where
         blocked: AtomicU64::new(0),
     });
     gdsl::verif_hook::install(obs.clone());
-    let progress: Arc<Vec<AtomicU64>> = Arc::new((0..3).map(|_| AtomicU64::new(0)).collect());
-    let tids: Arc<Vec<AtomicU64>> = Arc::new((0..3).map(|_| AtomicU64::new(0)).collect());
-    let finished: Arc<Vec<AtomicBool>> = Arc::new((0..3).map(|_| AtomicBool::new(true)).collect());
+    let progress: Arc<Vec<AtomicU64>> = Arc::new((0..NT).map(|_| AtomicU64::new(0)).collect());
+    let tids: Arc<Vec<AtomicU64>> = Arc::new((0..NT).map(|_| AtomicU64::new(0)).collect());
+    let finished: Arc<Vec<AtomicBool>> = Arc::new((0..NT).map(|_| AtomicBool::new(true)).collect());
     // thread-state sampler: deadlock = no progress between samples and every unfinished worker asleep
     let cur_desc = Arc::new(std::sync::Mutex::new(String::new()));
     let samples = Arc::new(AtomicU64::new(0));
@@ -353,13 +356,13 @@ where
         let out_path = out_path.to_string();
         let flav = F::NAME;
         std::thread::spawn(move || {
-            let mut last: Vec<u64> = vec![0; 3];
+            let mut last: Vec<u64> = vec![0; NT];
             let mut still = 0;
             loop {
                 std::thread::sleep(std::time::Duration::from_millis(400));
                 samples.fetch_add(1, AO::Relaxed);
                 let now: Vec<u64> = progress.iter().map(|p| p.load(AO::Relaxed)).collect();
-                let unfinished: Vec<usize> = (0..3).filter(|t| !finished[*t].load(AO::SeqCst)).collect();
+                let unfinished: Vec<usize> = (0..NT).filter(|t| !finished[*t].load(AO::SeqCst)).collect();
                 let asleep = !unfinished.is_empty() && unfinished.iter().all(|t| thread_state(tids[*t].load(AO::SeqCst)) == 'S');
                 if now == last && asleep {
                     still += 1;
@@ -397,7 +400,7 @@ where
             rep.count(&format!("{}.stress.{:?}", F::NAME, fam));
             rep.distinct(fnv_str(&format!("{}|{:?}|{}", F::NAME, fam, s)));
             if it == 0 {
-                rep.sample(json!({"flavour":F::NAME,"stress_family":format!("{:?}", fam),"threads":3,"ops_per_thread":ops,"seed":s}));
+                rep.sample(json!({"flavour":F::NAME,"stress_family":format!("{:?}", fam),"threads":NT,"ops_per_thread":ops,"seed":s}));
             }
             if !msgs.is_empty() {
                 let cls: String = msgs[0].chars().filter(|c| !c.is_ascii_digit()).take(50).collect();
